@@ -79,7 +79,9 @@ def pos_cases(draw):
             # how the caller names what is allowed: a registry built for it, the algorithms= list, or (JWE: a registry selects the transport) both
             "allow": draw(st.sampled_from(["registry", "algorithms", "both"])),
             # the caller's own JSON encoder / decoder classes (a claim of a type only that encoder knows is added)
-            "codec": draw(st.sampled_from([None, None, "encoder", "both"]))}
+            "codec": draw(st.sampled_from([None, None, "encoder", "both"])),
+            # JWS transport: the issuer's key object is declared for signing only, the consumer's (same material) for verifying only
+            "role": draw(st.sampled_from([None, None, "ops", "ops+use"]))}
 
 
 neg_payload = st.one_of(
@@ -120,8 +122,15 @@ def run_pos(case) -> dict:
         claims[n] = dt
         expected[n] = calendar.timegm(dt.utctimetuple())
     refkey = gk.key_from_record(case["key"])
-    priv = jkey(refkey, case["form"], True, {"kid": "the-key"} if case["keymode"] in ("keyset", "keyset_kid", "keyset_single") else None)
-    pub = priv if refkey["kty"] == "oct" else jkey(rk.public_of(refkey), case["form"], False, {"kid": "the-key"} if case["keymode"] in ("keyset", "keyset_kid", "keyset_single") else None)
+    kidp = {"kid": "the-key"} if case["keymode"] in ("keyset", "keyset_kid", "keyset_single") else None
+    role = case.get("role") if case["transport"] == "jws" else None
+    if role:
+        from gens import jwsplan as _jp
+        priv = jkey(refkey, case["form"], True, {**(kidp or {}), **_jp.role_params(role, "sign")})
+        pub = jkey(refkey if refkey["kty"] == "oct" else rk.public_of(refkey), case["form"], refkey["kty"] == "oct", {**(kidp or {}), **_jp.role_params(role, "verify")})
+    else:
+        priv = jkey(refkey, case["form"], True, kidp)
+        pub = priv if refkey["kty"] == "oct" else jkey(rk.public_of(refkey), case["form"], False, kidp)
     decoy = jkey({"kty": "oct", "k": b"0123456789abcdef" * 2}, "dict", True, {"kid": "decoy"})
     if refkey["kty"] == "oct":
         decoy = jkey(gk.okp_from_seed("Ed25519", bytes(32)), "dict", True, {"kid": "decoy"})
@@ -262,12 +271,40 @@ def run_neg(case) -> dict:
     return {f"C09:non-object-payload-returned-as-claims:{case['transport']}": f"jwt.decode returned claims {tok.claims!r} for the signed payload {payload[:40]!r}"}
 
 
+def run_big(case) -> dict:
+    """Claims whose JSON text is as large as the compressed JWE transport admits (256000 octets of plaintext) and a little less."""
+    from joserfc import jwt, jwe
+    from joserfc.jwk import OctKey
+    key = OctKey.import_key({"kty": "oct", "k": rb.encode(bytes(range(16)))})
+    reg = jwe.JWERegistry(algorithms=["dir", "A128GCM", "DEF"])
+    claims = {"pad": case["fill"] * (case["n"] // len(case["fill"]))}
+    try:
+        token = jwt.encode({"alg": "dir", "enc": "A128GCM", "zip": "DEF"}, claims, key, registry=reg)
+    except Exception as e:
+        return {f"C09:encode-raises:jwe:big:{exc_key(e)}": f"{type(e).__name__}: {e} (claims text of about {case['n'] + 10} octets)"}
+    try:
+        pt = rjwe.decrypt_compact(token, lambda h: {"kty": "oct", "k": bytes(range(16))}, limit=None)["plaintext"]
+    except rjwe.Reject as e:
+        return {"C09:reference-rejects-big-token": str(e)}
+    if len(pt) > 256000:
+        return {"dont_care": "claims text beyond the limit of the compressed transport"}
+    try:
+        tok = jwt.decode(token, key, registry=reg)
+    except Exception as e:
+        return {f"C09:decode-raises:jwe:big:{exc_key(e)}": f"claims text of {len(pt)} octets (limit 256000): {type(e).__name__}: {e}"}
+    if tok.claims != claims:
+        return {"C09:claims-differ:jwe:big": f"claims text of {len(pt)} octets comes back different"}
+    return {}
+
+
 def run_case(case):
+    if case["kind"] == "big":
+        return run_big(case)
     return run_pos(case) if case["kind"] == "pos" else run_neg(case)
 
 
 def shards(tier):
-    return [(f"p{i:02d}", {"part": "pos"}) for i in range(12)] + [(f"n{i}", {"part": "neg"}) for i in range(4)]
+    return [(f"p{i:02d}", {"part": "pos", "i": i}) for i in range(12)] + [(f"n{i}", {"part": "neg"}) for i in range(4)]
 
 
 def _shape(v, depth=0):
@@ -318,6 +355,17 @@ def run_shard(ctx, spec):
         for k, w in f.items():
             ctx.finding(k, w, case)
     if spec["part"] == "pos":
+        if spec.get("i") == 0:
+            for n in (255990, 255989, 255988, 255900, 250000):
+                for fill in ("x", "ab"):
+                    case = {"kind": "big", "n": n, "fill": fill}
+                    f = run_big(case)
+                    ctx.case(("big", n, fill), cls=["transport:jwe", "big-claims"])
+                    if "dont_care" in f:
+                        ctx.dontcare(f["dont_care"])
+                        continue
+                    for k, w in f.items():
+                        ctx.finding(k, w, case)
         drive(ctx, "pos", pos_cases(), body, 900 if ctx.tier == "quick" else 5000)
     else:
         drive(ctx, "neg", neg_cases(), body, 1200 if ctx.tier == "quick" else 6000)
